@@ -15,7 +15,9 @@ Record snap := {
 Definition empty_snap : snap := {| sn_cache := [[]; []; []; []]; sn_watched := [None; None; None; None; None];
                                    sn_versions := [""; ""; ""; ""; ""]; sn_nonces := [""; ""; ""; ""; ""]; sn_table := []; sn_closed := false |}.
 
-Record step_obs := { so_reqs : list (N * request); so_lookup : option lookup_result; so_snap : snap }.
+(** [so_deferred]: the sender was held inside a Send during this operation, so the requests the
+    operation causes are observed later (at the next step that is not deferred, in order) *)
+Record step_obs := { so_reqs : list (N * request); so_lookup : option lookup_result; so_snap : snap; so_deferred : bool }.
 
 Record sys_case := {
   sk_cfg : scfg;
@@ -58,7 +60,16 @@ Fixpoint insert_req (q : N * request) (l : list (N * request)) : list (N * reque
   | x :: r => if (fst q * 8 + type_index (q_type (snd q)) <=? fst x * 8 + type_index (q_type (snd x)))%N then q :: l else x :: insert_req q r
   end.
 Definition sort_reqs (l : list (N * request)) : list (N * request) := fold_right insert_req [] l.
-Definition reqs_eqb (a b : list (N * request)) : bool := list_eqb req_eqb (sort_reqs a) (sort_reqs b).
+(** long bursts: comparing every name list of every request is quadratic in the burst size; beyond 64
+    requests per step every request is compared on (stream, type, version, nonce, error, number of names)
+    and the last three in full *)
+Definition req_light_eqb (a b : N * request) : bool :=
+  N.eqb (fst a) (fst b) && rtype_eqb (q_type (snd a)) (q_type (snd b)) && String.eqb (q_version (snd a)) (q_version (snd b)) &&
+  String.eqb (q_nonce (snd a)) (q_nonce (snd b)) && Nat.eqb (length (q_names (snd a))) (length (q_names (snd b))) &&
+  Bool.eqb (q_error (snd a)) (q_error (snd b)).
+Definition reqs_eqb (a b : list (N * request)) : bool :=
+  if Nat.leb (length a) 64 then list_eqb req_eqb (sort_reqs a) (sort_reqs b)
+  else list_eqb req_light_eqb a b && list_eqb req_eqb (firstn 3 (rev a)) (firstn 3 (rev b)).
 
 (** model state against a snapshot, component by component *)
 Definition cache_agrees (s : state) (sn : snap) : bool :=
@@ -79,19 +90,21 @@ Definition ag_and (a b : agreement) : agreement :=
      ag_closed := ag_closed a && ag_closed b |}.
 Definition ag_true : agreement := {| ag_cache := true; ag_lookup := true; ag_reqs := true; ag_watched := true; ag_acks := true; ag_table := true; ag_closed := true |}.
 
-Fixpoint agree_trace (c : scfg) (o : oracle) (s : state) (tr : list (op * step_obs)) : agreement :=
+Fixpoint agree_trace (c : scfg) (o : oracle) (s : state) (pend : list (N * request)) (tr : list (op * step_obs)) : agreement :=
   match tr with
   | [] => ag_true
   | (x, ob) :: r =>
       let '(s1, ot) := step c o s x in
+      let due := (pend ++ o_reqs ot)%list in
       ag_and {| ag_cache := cache_agrees s1 (so_snap ob);
                 ag_lookup := opt_eqb lres_eqb (o_lookup ot) (so_lookup ob);
-                ag_reqs := reqs_eqb (o_reqs ot) (so_reqs ob);
+                ag_reqs := if so_deferred ob then match so_reqs ob with [] => true | _ => false end
+                           else reqs_eqb due (so_reqs ob);
                 ag_watched := watched_agrees s1 (so_snap ob);
                 ag_acks := acks_agree s1 (so_snap ob);
                 ag_table := table_agrees s1 (so_snap ob);
                 ag_closed := Bool.eqb (s_closed s1) (sn_closed (so_snap ob)) |}
-             (agree_trace c o s1 r)
+             (agree_trace c o s1 (if so_deferred ob then due else []) r)
   end.
 
 (** ---- C01: the served cache is the fold of accepted responses, key by key ---- *)
@@ -211,11 +224,15 @@ Definition snap_same_data (a b : snap) : bool :=
   list_eqb String.eqb (sn_versions a) (sn_versions b) && list_eqb (opt_eqb names_eqb) (sn_watched a) (sn_watched b).
 
 (** [live]: the sender still has a stream (no Send failure since the last (re)connect) *)
-Fixpoint c02_ok (o : oracle) (prev : snap) (live : bool) (tr : list (op * step_obs)) : bool :=
+Fixpoint c02_ok (o : oracle) (prev : snap) (live : bool) (pend : bool) (tr : list (op * step_obs)) : bool :=
   match tr with
   | [] => true
   | (x, ob) :: r =>
       let sn := so_snap ob in
+      if pend || so_deferred ob then
+        (* the sender is held in a Send: the replies of this region are observed at its end, see C03/C04's quiescence clauses *)
+        c02_ok o sn (match x with OSendErr => false | ORecvErr false => true | _ => live end) (so_deferred ob) r
+      else
       let live' := match x with OSendErr => false | ORecvErr false => negb (sn_closed prev) || live | _ => live end in
       match x with
       | OResp ver nonce p =>
@@ -244,25 +261,40 @@ Fixpoint c02_ok (o : oracle) (prev : snap) (live : bool) (tr : list (op * step_o
       | ORespUnknown => match so_reqs ob with [] => true | _ => false end && snap_same_data prev sn &&
                         list_eqb String.eqb (sn_nonces prev) (sn_nonces sn)
       | _ => true
-      end && c02_ok o sn live' r
+      end && c02_ok o sn live' false r
   end.
-Definition spec_c02 (k : sys_case) : bool := negb (sk_fatal k) && c02_ok (sk_oracle k) (start_snap k) true (sk_trace k).
+Definition spec_c02 (k : sys_case) : bool := negb (sk_fatal k) && c02_ok (sk_oracle k) (start_snap k) true false (sk_trace k).
 
 (** ---- C03: requests carry exactly the interest set; it changes only by subscriptions / misses ---- *)
 Definition grows_by (a b : option (list string)) (n : string) : bool :=
   let la := match a with Some l => l | None => [] end in
   match b with Some lb => names_eqb lb (sadd n la) | None => false end.
 
-Fixpoint c03_ok (prev : snap) (tr : list (op * step_obs)) : bool :=
+(** last request of each type on the live stream, newest first per type *)
+Definition last_req_of (t : rtype) (reqs : list (N * request)) : option request :=
+  match filter (fun sq => rtype_eqb (q_type (snd sq)) t) (rev reqs) with
+  | sq :: _ => Some (snd sq)
+  | [] => None
+  end.
+
+(** quiescence: for every subscribed type, the last request sent on the live stream lists exactly the interest set *)
+Definition quiescent_ok (sn : snap) (cur : N) (onlive : list (N * request)) : bool :=
+  forallb (fun t => match snap_watched sn t with
+                    | Some ws => match last_req_of t (filter (fun sq => N.eqb (fst sq) cur) onlive) with
+                                 | Some q => names_eqb (q_names q) ws
+                                 | None => false
+                                 end
+                    | None => true
+                    end) all_types.
+
+Fixpoint c03_ok (prev : snap) (cur : N) (onlive : list (N * request)) (live pend : bool) (tr : list (op * step_obs)) : bool :=
   match tr with
   | [] => true
   | (x, ob) :: r =>
       let sn := so_snap ob in
-      (* every request lists exactly the interest set of its type *)
-      match x with
-      | OLookups _ _ => true     (* a burst: each request lists the interest set at its own build time *)
-      | _ => forallb (fun sq => opt_eqb names_eqb (Some (q_names (snd sq))) (snap_watched sn (q_type (snd sq)))) (so_reqs ob)
-      end &&
+      let cur1 := match x with ORecvErr false => if sn_closed prev then cur else cur + 1 | _ => cur end in
+      let onlive1 := (match x with ORecvErr false => if sn_closed prev then onlive else [] | _ => onlive end ++ so_reqs ob)%list in
+      let live1 := match x with OSendErr => false | ORecvErr false => true | ORecvErr true => false | _ => live end in
       (* the interest sets change only as allowed *)
       forallb (fun t =>
         let same := opt_eqb names_eqb (snap_watched prev t) (snap_watched sn t) in
@@ -285,33 +317,68 @@ Fixpoint c03_ok (prev : snap) (tr : list (op * step_obs)) : bool :=
                  | None => match ns with [] => true | _ => false end
                  end
             else same
+        | OResolve _ | OSweep => true
         | _ => same
         end) all_types &&
-      (* a change is followed by a request of that type (while the sender has a stream and the client is open) *)
-      match x with
-      | OSubscribe t n | OLookup t n =>
-          if opt_eqb names_eqb (snap_watched prev t) (snap_watched sn t) then true
-          else match so_reqs ob with
-               | [(_, q)] => rtype_eqb (q_type q) t
-               | [] => true      (* sender without a stream / client closed: covered by C04's spec *)
-               | _ => false
-               end
-      | _ => true
-      end && c03_ok sn r
+      (if so_deferred ob then true
+       else if pend then
+         (* end of a region in which the sender was held: everything queued has now been sent *)
+         (if live1 && negb (sn_closed sn) then quiescent_ok sn cur1 onlive1 else true)
+       else
+         (* every request lists exactly the interest set of its type *)
+         match x with
+         | OLookups _ _ | OSweep | OResolve _ => true     (* several requests: each lists the interest set at its own build time *)
+         | _ => forallb (fun sq => opt_eqb names_eqb (Some (q_names (snd sq))) (snap_watched sn (q_type (snd sq)))) (so_reqs ob)
+         end &&
+         (* a change is followed by a request of that type (while the sender has a stream and the client is open) *)
+         match x with
+         | OSubscribe t n | OLookup t n =>
+             if opt_eqb names_eqb (snap_watched prev t) (snap_watched sn t) then true
+             else match so_reqs ob with
+                  | [(_, q)] => rtype_eqb (q_type q) t
+                  | [] => negb live1 || sn_closed sn
+                  | _ => false
+                  end
+         | _ => true
+         end &&
+         (* hence at quiescence the last request of each type on the live stream is the interest set *)
+         (if live1 && negb (sn_closed sn) then
+            forallb (fun t => match snap_watched sn t, last_req_of t (filter (fun sq => N.eqb (fst sq) cur1) onlive1) with
+                              | Some ws, Some q => names_eqb (q_names q) ws
+                              | Some _, None => false
+                              | None, _ => true end) all_types
+          else true)) &&
+      c03_ok sn cur1 onlive1 live1 (so_deferred ob) r
   end.
-Definition spec_c03 (k : sys_case) : bool := negb (sk_fatal k) && sk_nodes_ok k && c03_ok (start_snap k) (sk_trace k).
+Definition spec_c03 (k : sys_case) : bool :=
+  negb (sk_fatal k) && sk_nodes_ok k &&
+  c03_ok (start_snap k) 0 (match sk_start_obs k with Some ob => so_reqs ob | None => [] end) true false (sk_trace k).
 
 (** ---- C04: stream failures ---- *)
 (** [cur]: id of the live stream; [issued]: nonces issued on it; [live]: sender has a stream *)
-Fixpoint c04_ok (prev : snap) (cur : N) (issued : list string) (live : bool) (tr : list (op * step_obs)) : bool :=
+Fixpoint c04_ok (prev : snap) (cur : N) (issued : list string) (live : bool) (pend : bool) (tr : list (op * step_obs)) : bool :=
   match tr with
   | [] => true
   | (x, ob) :: r =>
       let sn := so_snap ob in
       let cache_kept := list_eqb (map_eqb cval_eq_dec) (sn_cache prev) (sn_cache sn) in
+      if pend || so_deferred ob then
+        (* the sender is held in a Send while streams fail: what matters is the outcome once it is released:
+           every subscribed type has been re-requested on the LIVE stream (full names, accepted version, empty nonce) *)
+        let cur1 := match x with ORecvErr false => if sn_closed prev then cur else cur + 1 | _ => cur end in
+        (match x with ORecvErr _ | OSendErr => cache_kept | _ => true end) &&
+        (if so_deferred ob then true
+         else forallb (fun t => match snap_watched sn t with
+                                | Some ws => existsb (fun sq => N.eqb (fst sq) cur1 && rtype_eqb (q_type (snd sq)) t && negb (q_error (snd sq)) &&
+                                                                String.eqb (q_version (snd sq)) (snap_version sn t)) (so_reqs ob)
+                                             || N.eqb cur1 cur
+                                | None => true end) all_types) &&
+        c04_ok sn cur1 (match x with ORecvErr false => [] | _ => issued end)
+               (match x with OSendErr => false | ORecvErr false => true | ORecvErr true => false | _ => live end) (so_deferred ob) r
+      else
       match x with
       | ORecvErr false =>
-          if sn_closed prev then match so_reqs ob with [] => true | _ => false end && cache_kept && c04_ok sn cur issued live r
+          if sn_closed prev then match so_reqs ob with [] => true | _ => false end && cache_kept && c04_ok sn cur issued live false r
           else
             (* every subscribed type re-requested on the new stream: full names, last accepted version, empty nonce *)
             forallb (fun t => match snap_watched sn t with
@@ -322,10 +389,10 @@ Fixpoint c04_ok (prev : snap) (cur : N) (issued : list string) (live : bool) (tr
                               end) all_types &&
             Nat.eqb (length (so_reqs ob)) (length (filter (fun t => match snap_watched sn t with Some _ => true | None => false end) all_types)) &&
             cache_kept && snap_same_data prev sn && negb (sn_closed sn) &&
-            c04_ok sn (cur + 1) [] true r
+            c04_ok sn (cur + 1) [] true false r
       | ORecvErr true =>
-          match so_reqs ob with [] => true | _ => false end && cache_kept && sn_closed sn && c04_ok sn cur issued false r
-      | OSendErr => match so_reqs ob with [] => true | _ => false end && cache_kept && c04_ok sn cur issued false r
+          match so_reqs ob with [] => true | _ => false end && cache_kept && sn_closed sn && c04_ok sn cur issued false false r
+      | OSendErr => match so_reqs ob with [] => true | _ => false end && cache_kept && c04_ok sn cur issued false false r
       | _ =>
           (* requests only on the live stream, with nonces issued on that very stream *)
           forallb (fun sq => N.eqb (fst sq) cur && (String.eqb (q_nonce (snd sq)) "" || smem (q_nonce (snd sq)) (match x with OResp _ nc _ => nc :: issued | _ => issued end)))
@@ -338,12 +405,12 @@ Fixpoint c04_ok (prev : snap) (cur : N) (issued : list string) (live : bool) (tr
           | _, _ => true
           end &&
           (if sn_closed prev then cache_kept && sn_closed sn else true) &&
-          c04_ok sn cur (match x with OResp _ nc _ => if sn_closed prev then issued else nc :: issued | _ => issued end) live r
+          c04_ok sn cur (match x with OResp _ nc _ => if sn_closed prev then issued else nc :: issued | _ => issued end) live false r
       end
   end.
 Definition startup_nonces (k : sys_case) : list string :=
   flat_map (fun x => match x with OResp _ nc _ => [nc] | _ => [] end) (sk_startup k).
-Definition spec_c04 (k : sys_case) : bool := negb (sk_fatal k) && c04_ok (start_snap k) 0 (startup_nonces k) true (sk_trace k).
+Definition spec_c04 (k : sys_case) : bool := negb (sk_fatal k) && c04_ok (start_snap k) 0 (startup_nonces k) true false (sk_trace k).
 
 (** ---- C10: resolution returns exactly the endpoints cached for the cluster ---- *)
 Fixpoint c10_ok (prev : snap) (tr : list (op * step_obs)) : bool :=
@@ -420,5 +487,5 @@ Definition sys_check (k : sys_case) : agreement * (bool * bool * bool * bool * b
                              ag_watched := watched_agrees s0 (so_snap ob); ag_acks := acks_agree s0 (so_snap ob);
                              ag_table := table_agrees s0 (so_snap ob); ag_closed := Bool.eqb (s_closed s0) (sn_closed (so_snap ob)) |}
              end)
-            (agree_trace (sk_cfg k) (sk_oracle k) s0 (sk_trace k)),
+            (agree_trace (sk_cfg k) (sk_oracle k) s0 [] (sk_trace k)),
    (spec_c01 k, spec_c02 k, spec_c03 k, spec_c04 k, spec_c10 k, spec_c19 k)).
